@@ -4,9 +4,13 @@
    Proved for all inputs: the ordering phase draws every rooted tree whose edges span one layer without crossings
    (C13_out_trees_have_no_crossings, C13_in_trees_have_no_crossings: planarity of the DFS initial order, the
    zero-crossing shortcut, the tie rule between the two runs), the counter is exact, the positioners keep the
-   order (C12). C13_partial: that network-simplex layering makes every edge of a tree span exactly one layer
-   (optimality of the layering on trees) is not proved here; it is decided per instance by the deep
-   correspondence and the certificate check of C10, and searched by the direct oracle. *)
+   order (C12). And end to end (Proofs/TreeEndToEnd.v): on a tree-shaped component network simplex makes every edge
+   span exactly one layer — a spanning tree of tight edges in a graph with |E| + 1 = |N| is the whole graph —
+   whatever the iteration budget and the balancing; so for every rooted out-tree or in-tree, every cycle breaker,
+   network-simplex layering, every modelled positioner and router, and every order of the edge list, the ordering
+   phase reports 0 and the FINAL drawing has 0 crossings (C13_out_tree_end_to_end, C13_in_tree_end_to_end).
+   Longest-path layering can stretch tree edges over several layers; the theorems are stated for the default
+   network-simplex layering, as the property's mechanism describes. *)
 From Coq Require Import List ZArith.
 From Autog Require Import Graph Phase3 CrossCount Wmedian CrossCountProofs WmedianProofs TreeProofs.
 Import ListNotations.
@@ -33,3 +37,26 @@ Theorem C13_in_trees_have_no_crossings : forall maxiter g root g' x,
   layered g -> rooted_in_tree g root -> exec_wmedian maxiter g = Ok (g', x) -> x = 0%Z /\ drawing_crossings g' = 0%Z.
 Proof. exact rooted_in_tree_no_crossings. Qed.
 Print Assumptions C13_in_trees_have_no_crossings.
+
+From Autog Require Import Pipeline E2EBackbone TreeEndToEnd.
+
+(* [component_input g]: what the front end hands to the pipeline (connected component, >= 2 nodes);
+   [out_tree_input g root]: root is a node, the non-self-loop edges admit a topological ranking, every node but the
+   root is entered by exactly one of them and the root by none — all edges point away from the root *)
+Theorem C13_out_tree_end_to_end : forall o g g' x root,
+  component_input g -> options_ok o -> o_p2 o = Phase2.NetworkSimplex -> out_tree_input g root ->
+  layout_component o g = Ok (g', x) -> x = Some 0%Z /\ drawing_crossings g' = 0%Z.
+Proof.
+  intros o g g' x root CI OK NS T H.
+  destruct (out_tree_no_crossings_end_to_end o g g' x root CI OK NS T H) as (A & B & _). split; assumption.
+Qed.
+Print Assumptions C13_out_tree_end_to_end.
+
+Theorem C13_in_tree_end_to_end : forall o g g' x root,
+  component_input g -> options_ok o -> o_p2 o = Phase2.NetworkSimplex -> in_tree_input g root ->
+  layout_component o g = Ok (g', x) -> x = Some 0%Z /\ drawing_crossings g' = 0%Z.
+Proof.
+  intros o g g' x root CI OK NS T H.
+  destruct (in_tree_no_crossings_end_to_end o g g' x root CI OK NS T H) as (A & B & _). split; assumption.
+Qed.
+Print Assumptions C13_in_tree_end_to_end.
